@@ -5,7 +5,11 @@
    forced)): every generation k in 1..c whose predecessor existed now holds what name.(k-1) held; generations beyond c and
    all other paths are untouched; no rotation due: nothing is renamed. Every std::vector index is inside the vector. */
 #include "vf_h.h"
+#ifdef BIG
+#include "c29lb.c"     /* same code, ostream model replaced by models/ostream_null.c (opaque names) */
+#else
 #include "c29l.c"
+#endif
 #ifdef ROTNUM
 #define ROTMAX ROTNUM
 #endif
@@ -18,11 +22,26 @@ static struct S_class_2eFIX8_3a_3aFileLogger the_fl;
 uint32_t cx_ex0[2]; /* bit k: generation k existed before (family 0 / 1) */
 uint32_t cx_rotnum, cx_flags; uint8_t cx_force;
 static int opened;
+#ifdef BIG    /* runs around the documented maximum: names are opaque, only indexing and the number of renames are observed */
+uint32_t x_rename(uint8_t *from, uint8_t *to) { rn_calls++; return 0; }
+void vf_ofs_opened(uint8_t *path, uint32_t mode) { opened++; }
+#else
 uint32_t x_rename(uint8_t *from, uint8_t *to) { return rec_rename(from, to); }
 void vf_ofs_opened(uint8_t *path, uint32_t mode) { opened++; VF_ASSERT(gen_of(0, path) == 0, "C29: the log file opened after rotation is the configured path"); }
+#endif
 int main(void)
 {
   uint32_t cap = vf_max_rotation(), APPEND = vf_flag_append(), COMPRESS = vf_flag_compress();
+#ifdef BIG
+  cx_rotnum = ROTNUM; cx_flags = 0; cx_force = 0;
+  vf_fl_setup(&the_fl, (uint8_t*)"l", 1, 0, ROTNUM);
+  uint8_t okb = vf_fl_rotate(&the_fl, 0) & 1;
+  VF_ASSERT(okb && !__vf_exc_pending, "C29: rotate succeeds");
+  VF_ASSERT((uint32_t)rn_calls == (ROTNUM < cap ? ROTNUM : cap), "C29: at most the documented maximum of generations is kept (one rename per generation)");
+  VF_ASSERT(opened == 1, "C29: the log file is reopened once");
+  VF_REACH();
+  return 0;
+#else
 #ifdef ROTNUM
   uint32_t rotnum = ROTNUM;
 #else
@@ -58,7 +77,10 @@ int main(void)
   }
   if (due && c >= 1 && g_ex0[0][0]) VF_ASSERT(!g_ex[0][0], "C29: the current log was moved to name.1");
   VF_ASSERT(opened == 1, "C29: the log file is reopened once");
+#if ROTNUM > 0
   if (due) VF_REACH();
+#endif
   if (!due) VF_REACH();
   return 0;
+#endif
 }
